@@ -215,10 +215,9 @@ class ShapeAnalyzer:
             sel = dists < radius
             close = positions[sel.flatten()]
 
-            # digitize differences to move all close positions to
-            # same sphere around coordr
-            offsets = np.digitize(close - sym_coords, bins=[0.5, -0.4999999]) - 1
-            close += offsets
+            # move all close positions to the periodic image nearest to
+            # `sym_coords`, which itself may lie several cells outside the unit cell
+            close -= np.round(close - sym_coords)
 
             inversed = op.inverse.operate_multi(close)
 
